@@ -214,11 +214,13 @@ func (s *Stream) WriteRtpPacket(packet *rtp.Packet) error {
 
 	atomic.AddUint64(&s.size, uint64(packet.Size()))
 
-	s.joinLocks[RTPPacket].Lock()
-	keyframe := s.cache.CachePack(packet)
-	verifhook.Point("media.write.cached", s, packet)
-	s.consumptions.SendToAll(packet, keyframe)
-	s.joinLocks[RTPPacket].Unlock()
+	func() {
+		s.joinLocks[RTPPacket].Lock()
+		defer s.joinLocks[RTPPacket].Unlock() // 即使分析包内容时 panic 也要释放
+		keyframe := s.cache.CachePack(packet)
+		verifhook.Point("media.write.cached", s, packet)
+		s.consumptions.SendToAll(packet, keyframe)
+	}()
 	verifhook.Point("media.write.sent", s, packet)
 
 	s.rtpDemuxer.WriteRtpPacket(packet)
@@ -245,11 +247,13 @@ func (s *Stream) WriteFlvTag(tag *flv.Tag) error {
 		return statusErrors[status]
 	}
 
-	s.joinLocks[FLVPacket].Lock()
-	keyframe := s.flvCache.CachePack(tag)
-	verifhook.Point("media.flvwrite.cached", s, tag)
-	s.flvConsumptions.SendToAll(tag, keyframe)
-	s.joinLocks[FLVPacket].Unlock()
+	func() {
+		s.joinLocks[FLVPacket].Lock()
+		defer s.joinLocks[FLVPacket].Unlock()
+		keyframe := s.flvCache.CachePack(tag)
+		verifhook.Point("media.flvwrite.cached", s, tag)
+		s.flvConsumptions.SendToAll(tag, keyframe)
+	}()
 	verifhook.Point("media.flvwrite.sent", s, tag)
 	return nil
 }
@@ -299,14 +303,16 @@ func (s *Stream) startConsume(consumer Consumer, packetType PacketType, extra st
 	verifhook.Point("media.join.begin", s, consumer)
 	// 快照缓存与注册必须对发布者原子：否则其间发布的包既不在快照里也收不到直播(丢包)，
 	// 或者已进缓存又被广播一次(重复)
-	joinLock := &s.joinLocks[packetType&1]
-	joinLock.Lock()
-	if useGopCache {
-		c.sendGop(cache) // 新消费者，先发送gop缓存
-	}
-	verifhook.Point("media.join.snapshotted", s, consumer)
-	cs.Add(c)
-	joinLock.Unlock()
+	func() {
+		joinLock := &s.joinLocks[packetType&1]
+		joinLock.Lock()
+		defer joinLock.Unlock()
+		if useGopCache {
+			c.sendGop(cache) // 新消费者，先发送gop缓存
+		}
+		verifhook.Point("media.join.snapshotted", s, consumer)
+		cs.Add(c)
+	}()
 	verifhook.Point("media.join.registered", s, consumer)
 
 	go c.consume()
